@@ -133,6 +133,7 @@ type VC struct {
 	nauto     int
 	specErrs  []string
 	usedLemmas []string
+	places    *framePlaces
 }
 
 type specUFInfo struct {
